@@ -93,7 +93,14 @@ def run_case(c):
                 fr = fresh[key] = [bench.construct(key), 0]
                 obs["fresh_constructions"] = obs.get("fresh_constructions", 0) + 1
             fr[1] += 1
-            canon[ck] = bench.evaluate(fr[0], y, fid)
+            try:
+                canon[ck] = bench.evaluate(fr[0], y, fid)
+            except Exception as e:
+                # the shipped functions are total on their boxes: an evaluation that raises is not "the value of the point"
+                if len(viol) < 5:
+                    viol.append({"mech": "purity:evaluation-raised", "key": list(key), "fid": fid, "point": [float(v) for v in y], "how": how + " (fresh instance)",
+                                 "error": "%s: %s" % (type(e).__name__, str(e)[:120]), "evaluations_before": nev, "live_instances": len(pool)})
+                return
             if c["xproc"] and len(xq) < 40 and fid is None:
                 xq.append((list(key), [float(v) for v in y], canon[ck]))
         as_list = rng.random() < 0.3
@@ -109,7 +116,14 @@ def run_case(c):
             obs["holder_reused"] = obs.get("holder_reused", 0) + 1
         else:
             fv = bench.holder(fid)
-        ret = inst.Calculate(pt, fv)
+        try:
+            ret = inst.Calculate(pt, fv)
+        except Exception as e:
+            nev += 1
+            if len(viol) < 5:
+                viol.append({"mech": "purity:evaluation-raised", "key": list(key), "fid": fid, "point": [float(v) for v in y], "how": how,
+                             "error": "%s: %s" % (type(e).__name__, str(e)[:120]), "evaluations_before": nev, "live_instances": len(pool)})
+            return
         nev += 1
         obs["how_" + how] = obs.get("how_" + how, 0) + 1
         keys_seen.add((key, y.tobytes(), fid))
@@ -200,6 +214,13 @@ def run_case(c):
             if rng.random() < 0.5:
                 y = np.clip(np.rint(y), np.ceil(lo), np.floor(hi))
             how = "lattice"
+        elif u < 0.76:
+            # coordinates of tiny magnitude (squares underflow, subnormals, signed zero) wherever the box contains them
+            y = lo + rng.random(len(lo)) * (hi - lo)
+            tiny = np.array([float(rng.choice([1e-160, -1e-160, 1e-200, -3e-200, 5e-324, -5e-324, 2.5e-308, -0.0, 1e-17])) for _ in range(len(lo))])
+            put = (rng.random(len(lo)) < 0.6) & (tiny >= lo) & (tiny <= hi)
+            y = np.where(put, tiny, y)
+            how = "tiny-coordinates" if put.any() else "random"
         else:
             y = lo + rng.random(len(lo)) * (hi - lo)
             if rng.random() < 0.1:
@@ -266,7 +287,7 @@ def finalize(obs, tier, stats):
         return "family-focused histories did not cover all eight families: %s" % obs.get("focus_families"), {}
     if not obs.get("fresh_interpreter_values"):
         return "fresh-interpreter comparison never ran", {}
-    missing = [k for k in ("cross_member_same_point", "how_immediate-repeat", "how_declared-point-first", "holder_reused", "how_repeat-family", "integer_typed_points", "how_lattice", "how_integer-point-first", "how_basin-walk") if not obs.get(k)]
+    missing = [k for k in ("cross_member_same_point", "how_immediate-repeat", "how_declared-point-first", "holder_reused", "how_repeat-family", "integer_typed_points", "how_lattice", "how_integer-point-first", "how_basin-walk", "how_tiny-coordinates") if not obs.get(k)]
     if missing:
         return "history shapes never produced: %s" % missing, {}
     return None, {}
